@@ -12,6 +12,8 @@ from __future__ import annotations
 
 import hashlib
 import json
+
+import numpy as np
 import os
 import random
 import shutil
@@ -151,6 +153,27 @@ def run(chk):
                 'scenes with 9-17 sets (more than the 8 marker styles); per chunk 2-4 diagnostic() calls in sequence with random '
                 'upto / show_ceilos / ref_metar / ref_metar_origin / save formats (None, str, list, []), show=False, with un-rendered excursions to the latex / metsymb style in between; non-trivial '
                 '= the chunk has at least one slice; distinct by chunk digest')
+    # the symbol lookup behind every slice / group / layer label (theorems C20_src_symb_*, about the translated source): the
+    # same statement run on the implementation - total on every okta a table can hold, in both styles (the metsymb style
+    # cannot be rendered here, so the plots themselves only reach the plain branch)
+    common.import_ampycloud()
+    from ampycloud import wmo as _wmo
+    seen_ = {}
+    for v_ in range(0, 10):
+        for style_ in (False, True):
+            for arg_ in (v_, np.int64(v_)):
+                try:
+                    sy = _wmo.okta2symb(arg_, use_metsymb=style_)
+                    if not isinstance(sy, str):
+                        chk.spec_fail('C20.okta-symbol-total', f'okta2symb({arg_!r}, use_metsymb={style_}) returned {type(sy).__name__}',
+                                      {'fn': 'okta2symb', 'okta': v_, 'use_metsymb': style_})
+                    elif style_ and seen_.setdefault(sy, v_) != v_:
+                        chk.spec_fail('C20.okta-symbol-total', f'oktas {seen_[sy]} and {v_} share the symbol {sy!r}',
+                                      {'fn': 'okta2symb', 'okta': v_, 'use_metsymb': style_})
+                except Exception as e:
+                    chk.spec_fail('C20.okta-symbol-total', f'okta2symb({arg_!r}, use_metsymb={style_}) raised {type(e).__name__}: {e}',
+                                  {'fn': 'okta2symb', 'okta': v_, 'use_metsymb': style_})
+    chk.count('okta_symbol_lookups', 40)
     with Pool(16) as pool:
         results = pool.map(_work, [(chk.seed, k) for k in range(n)], chunksize=1)
     live = [r for r in results if r.get('req')]
@@ -184,6 +207,15 @@ def run(chk):
 
 def replay(chk, obj):
     case = obj.get('case') or (obj.get('broken_correspondence') or [{}])[0].get('case')
+    if case.get('fn') == 'okta2symb':
+        common.import_ampycloud()
+        from ampycloud import wmo as _wmo
+        try:
+            print('okta2symb ->', repr(_wmo.okta2symb(case['okta'], use_metsymb=case['use_metsymb'])))
+            return 0
+        except Exception as e:
+            print(f'okta2symb({case["okta"]}, use_metsymb={case["use_metsymb"]}) raised {type(e).__name__}: {e}')
+            return 1
     g = case['gen']
     r = _work((g['seed'], g['k']))
     print({k: v for k, v in r.items() if k != 'req'})
